@@ -41,7 +41,7 @@ TraceNext ==
        /\ \/ e.e = "Config" /\ l = 1 /\ UNCHANGED vars
           \/ /\ e.e = "Reply" /\ e.m.k \notin {"Disconnect", "Silence"}
              /\ \/ OptionsReply(Msg(e)) \/ StartupReply(Msg(e)) \/ AuthReply(Msg(e)) \/ ServerProtoError(Msg(e))
-          \/ e.e = "Reply" /\ e.m.k = "Disconnect" /\ Disconnect
+          \/ e.e = "Reply" /\ e.m.k = "Disconnect" /\ Disconnect(e.m.kind)
           \/ e.e = "Silence" /\ Silence
           \/ e.e = "Probe" /\ Probe
        /\ Post(e.post)
